@@ -79,6 +79,13 @@ class Tap:
         if any(n > 1 for n in targets.values()):
             c["competing_instructions_same_target_same_step"] += 1
         prev = self.prev
+        for i in instr:
+            if i["instruction_type"] == "RepositionInstruction":
+                # judged on the requests still waiting after the step (far-out customers nobody reaches within one step)
+                counts = sorted(len(v) for v in sim.r_search.values())
+                c["reposition_instructions"] += 1
+                if len(counts) >= 2 and counts[-1] == counts[-2]:
+                    c["reposition_with_demand_tied_between_cells"] += 1
         if prev is not None:
             # ranking ties seen by the charging manager on the pre-state
             for i in instr:
